@@ -316,7 +316,9 @@ def wed(params):
     pt_b = vsum(base_bottom, vec_b)
     vec_ab = vdiff(vec_a, vec_b)
     vec_c = vect(vec_ab, height)
-    sign_c = 1 if mixed(vec_a, vec_b, vec_c) > 0. else -1
+    # the wedge lies on the side of the slant facet that contains the base
+    # vertex, i.e. on the side opposite to vec_a with respect to pt_a
+    sign_c = 1 if scal(vec_a, vec_c) > 0. else -1
     return [
         (MS.P, planeParamsFromNormalAndPoint(vec_c, pt_a), sign_c),
         (MS.P, planeParamsFromNormalAndPoint(vec_a, pt_b), -1),
